@@ -661,24 +661,29 @@ Section Proofs.
   Theorem interleaved_request_fields : forall c st e,
     let q := make_request c st e in
     (q_ireq q = true -> c_imode c = true /\ s_has st = true /\
+                        s_host st = e_server e /\ s_port st = e_port e /\
                         q_rx q = s_crx st /\ q_tx q = s_ctx st /\ q_psrx q = s_srx st) /\
     (q_ireq q = false -> q_rx q = zero64 /\ q_tx q = time64_of_time (e_ref e)).
   Proof.
     intros c st e q. subst q. unfold make_request, wire_rx, wire_tx. simpl.
-    destruct (want_interleaved c st (e_ref e)) eqn:E.
+    destruct (want_interleaved c st e) eqn:E.
     - split; [|intro H; discriminate]. intros _. unfold want_interleaved in E.
-      apply andb_true_iff in E. destruct E as [E _]. apply andb_true_iff in E. destruct E as [E1 E2]. auto.
+      rewrite !andb_true_iff in E. destruct E as ((((E1 & E2) & E3) & E4) & _).
+      apply Z.eqb_eq in E3. apply Z.eqb_eq in E4. auto 10.
     - split; [intro H; discriminate|]. auto.
   Qed.
 
   (* ---- the property oracle holds of the model ---- *)
-  Definition oreq_of (prev : list time64) (q : request) : oreq :=
-    {| oq_nts := q_nts q; oq_ireq := q_ireq q; oq_rx := q_rx q; oq_tx := q_tx q; oq_prev := prev;
-       oq_ref := q_ref q |}.
+  (* the server an exchange queries, as one number *)
+  Definition sid_of (host port : Z) : Z := host * 65536 + port.
+  Definition oreq_of (prev : list (Z * time64)) (q : request) : oreq :=
+    {| oq_nts := q_nts q; oq_ireq := q_ireq q; oq_rx := q_rx q; oq_tx := q_tx q;
+       oq_sid := sid_of (q_server q) (q_port q); oq_prev := prev; oq_ref := q_ref q |}.
 
   (* the oracle's history agrees with the client's: an interleaved request quotes, as origin, the receive
      timestamp of a datagram the last successful measurement was based on *)
-  Definition prev_ok (prev : list time64) (q : request) : Prop := q_ireq q = true -> In (q_psrx q) prev.
+  Definition prev_ok (prev : list (Z * time64)) (q : request) : Prop :=
+    q_ireq q = true -> In (sid_of (q_server q) (q_port q), q_psrx q) prev.
 
   Definition payload_bytes (g : dgram) : Prop := Forall (fun x => 0 <= x < 256) (g_payload g).
 
@@ -765,7 +770,7 @@ Section Proofs.
     2:{ rewrite F1, Hrx. subst r. unfold result_of. destruct (stamps q g h) as [[[t0 t1] t2] t3]. reflexivity. }
     2:{ subst r. unfold result_of. destruct (stamps q g h) as [[[t0 t1] t2] t3]. reflexivity. }
     unfold o_clauses. rewrite F1.
-    rewrite Horg, Hrx, Htx. unfold oreq_of. cbn [oq_tx oq_rx oq_ireq oq_nts oq_ref oq_prev].
+    rewrite Horg, Hrx, Htx. unfold oreq_of. cbn [oq_tx oq_rx oq_ireq oq_nts oq_ref oq_prev oq_sid].
     apply metadata_ok_valid in G7.
     assert (Hnts : (if q_nts q then o_uid_ok d && o_auth_ok d else true) = true).
     { destruct (q_nts q) eqn:EN; [|reflexivity]. destruct (F3 (G5 eq_refl)) as [A B]. rewrite A, B. reflexivity. }
@@ -791,9 +796,9 @@ Section Proofs.
     - apply Z.eqb_eq. exact S1.
     - apply orb_true_iff. destruct S3 as [S3|[S3a S3b]].
       + left. apply Z.eqb_eq. exact S3.
-      + right. rewrite S3a. cbn [andb]. apply existsb_exists. exists (q_psrx q). split.
+      + right. rewrite S3a. cbn [andb]. apply existsb_exists. exists (sid_of (q_server q) (q_port q), q_psrx q). split.
         * apply HP. apply andb_true_iff in S3a. tauto.
-        * apply Z.eqb_eq. exact S3b.
+        * cbn [fst snd]. rewrite Z.eqb_refl. cbn [andb]. apply Z.eqb_eq. exact S3b.
     - apply Z.leb_le. exact S2.
   Qed.
 
@@ -817,12 +822,12 @@ Section Proofs.
     Forall2 (faithful q) (dgrams_of evs) views ->
     prev_ok prev q ->
     recv_loop open q 0 0 evs = LAccept i r ->
-    In (r_srx r) (C05_basis (oreq_of prev q) views (obs_of (LAccept i r))).
+    In (sid_of (q_server q) (q_port q), r_srx r) (C05_basis (oreq_of prev q) views (obs_of (LAccept i r))).
   Proof.
     intros q evs views prev i r HB HF HP EL.
     destruct (accepted_view q evs views prev i r HB HF HP EL) as (d & Hd & HC & HS & _).
     simpl. rewrite <- HS.
-    apply (in_map (fun d0 : oview => o_t64 (o_payload d0) 32)). apply filter_In. auto.
+    apply (in_map (fun d0 : oview => (sid_of (q_server q) (q_port q), o_t64 (o_payload d0) 32))). apply filter_In. auto.
   Qed.
 
   (* ---- the oracle with its own history, along the exchanges of a call and along a history of calls ---- *)
@@ -834,7 +839,7 @@ Section Proofs.
       forall q, Forall2 (faithful q) (dgrams_of (e_evs e)) (views q e).
 
     (* the oracle (verdict, client state, oracle history) along the exchanges of call_loop *)
-    Fixpoint oracle_call (c : config) (st : cstate) (envs : list xenv) (prev : list time64) : bool * cstate * list time64 :=
+    Fixpoint oracle_call (c : config) (st : cstate) (envs : list xenv) (prev : list (Z * time64)) : bool * cstate * list (Z * time64) :=
       match envs with
       | [] => (true, st, prev)
       | e :: rest =>
@@ -853,14 +858,14 @@ Section Proofs.
       end.
 
     (* the client's interleaved-mode state is backed by the oracle's history *)
-    Definition hist_inv (c : config) (st : cstate) (prev : list time64) : Prop :=
-      c_imode c = true -> s_has st = true -> In (s_srx st) prev.
+    Definition hist_inv (c : config) (st : cstate) (prev : list (Z * time64)) : Prop :=
+      c_imode c = true -> s_has st = true -> In (sid_of (s_host st) (s_port st), s_srx st) prev.
 
     Lemma hist_inv_request : forall c st e prev, hist_inv c st prev -> prev_ok prev (make_request c st e).
     Proof.
-      intros c st e prev HI HQ. unfold make_request in *. cbn [q_ireq q_psrx] in *.
-      unfold want_interleaved in HQ. apply andb_true_iff in HQ. destruct HQ as [HQ _].
-      apply andb_true_iff in HQ. destruct HQ as [H1 H2]. exact (HI H1 H2).
+      intros c st e prev HI HQ. unfold make_request in *. cbn [q_ireq q_psrx q_server q_port] in *.
+      unfold want_interleaved in HQ. rewrite !andb_true_iff in HQ. destruct HQ as ((((H1 & H2) & H3) & H4) & _).
+      apply Z.eqb_eq in H3. apply Z.eqb_eq in H4. rewrite <- H3, <- H4. exact (HI H1 H2).
     Qed.
 
     Theorem oracle_call_holds : forall c envs st prev i nerr acc,
@@ -877,7 +882,7 @@ Section Proofs.
         destruct (recv_loop open (make_request c st e) 0 0 (e_evs e)) as [k r|k er|k|k|] eqn:EL.
         + pose proof (basis_contains _ _ _ prev k r HB (HF _) HP EL) as HC.
           assert (HI' : hist_inv c (update c st e r) (C05_basis (oreq_of prev (make_request c st e)) (views (make_request c st e) e) (obs_of (LAccept k r)))).
-          { intros HM HS. unfold update in *. rewrite HM in *. cbn [s_srx]. exact HC. }
+          { intros HM HS. unfold update in *. rewrite HM in *. cbn [s_srx s_host s_port]. exact HC. }
           destruct (in_interleaved_mode c (update c st e r)).
           * split; [exact HO|]. split; [exact HI'|reflexivity].
           * specialize (IH (update c st e r) _ (S i) nerr (Some (COffset (r_off r) (r_crx r))) HV' HI').
@@ -896,7 +901,7 @@ Section Proofs.
     Qed.
 
     (* ... and along a history of calls and mode resets of one client *)
-    Fixpoint oracle_history (c : config) (st : cstate) (ops : list hop) (prev : list time64) : bool :=
+    Fixpoint oracle_history (c : config) (st : cstate) (ops : list hop) (prev : list (Z * time64)) : bool :=
       match ops with
       | [] => true
       | HCall envs :: rest =>
@@ -1030,7 +1035,7 @@ Section Proofs.
 
   (* the request of a client without the host-host key *)
   Definition without_authkey (q : request) : request :=
-    {| q_scion := q_scion q; q_server := q_server q; q_server_ia := q_server_ia q; q_local_ia := q_local_ia q;
+    {| q_scion := q_scion q; q_server := q_server q; q_port := q_port q; q_server_ia := q_server_ia q; q_local_ia := q_local_ia q;
        q_local := q_local q; q_authkey := false; q_bufcap := q_bufcap q; q_deadline := q_deadline q;
        q_nts := q_nts q; q_uid := q_uid q; q_s2c := q_s2c q; q_ireq := q_ireq q; q_rx := q_rx q; q_tx := q_tx q;
        q_ref := q_ref q; q_ctx1 := q_ctx1 q; q_pctx := q_pctx q; q_psrx := q_psrx q; q_pcrx := q_pcrx q |}.
